@@ -46,6 +46,9 @@ def cases(tier):
     return out
 
 
+LAST_NODES = {}
+
+
 def walk(dialect_label, add, res):
     from sqlfluff.core.dialects import dialect_selector
     from sqlfluff.core.parser import BaseSegment
@@ -126,6 +129,7 @@ def walk(dialect_label, add, res):
                 if id(c) not in seen:
                     nxt.append(c)
         frontier = nxt
+    LAST_NODES[dialect_label] = (dialect, list(seen.values()))  # BFS order; reused by C06's hint check
     for ref, et in sorted(dangling):
         add("dangling_reference", {"pair": f"{dialect_label}:{ref}"}, {"error": et})
     # simple() must return on every node
